@@ -4,13 +4,13 @@
     boundary) differs from G. *)
 From Verif Require Import Lib.Str Boundary.Types Boundary.Marshal.
 
-(** id, direction, (deferred, holds a closure, callee is a function value), parameter types, variadic, mode, actual arguments,
+(** id, direction, (deferred, callee is a function value), parameter types, variadic, mode, actual arguments,
     parameters observed by the implementation's callee, parameters observed by the reference *)
-Definition arg_case := (N * dir * (bool * bool * bool) * list ty * bool * cmode * list val * list val * list val)%type.
+Definition arg_case := (N * dir * (bool * bool) * list ty * bool * cmode * list val * list val * list val)%type.
 
 Definition arg_mis_y (cs : list arg_case) : list N :=
-  flat_map (fun '(id, d, (df, hd, fv), ins, va, m, sent, impl, _) =>
-    if vals_eqb (y_bind d {| cx_defer := df; cx_hold := hd; cx_value := fv |} ins va m sent) impl then [] else [id]) cs.
+  flat_map (fun '(id, d, (df, fv), ins, va, m, sent, impl, _) =>
+    if vals_eqb (y_bind d {| cx_defer := df; cx_value := fv |} ins va m sent) impl then [] else [id]) cs.
 Definition arg_mis_g (cs : list arg_case) : list N :=
   flat_map (fun '(id, _, _, ins, va, m, sent, _, ref) =>
     if vals_eqb (g_bind ins va m sent) ref then [] else [id]) cs.
@@ -68,3 +68,32 @@ Definition wrap_mis_y (cs : list wrap_case) : list N :=
   flat_map (fun '(id, p, sm, q, impl, _) => if Bool.eqb (y_host_sees p sm q) impl then [] else [id]) cs.
 Definition wrap_mis_g (cs : list wrap_case) : list N :=
   flat_map (fun '(id, _, sm, q, _, ref) => if Bool.eqb (g_host_sees sm q) ref then [] else [id]) cs.
+
+Definition who_eqb (a b : who) : bool :=
+  match a, b with
+  | WScript, WScript | WHost, WHost | WBoth, WBoth | WFailBuild, WFailBuild | WFailCall, WFailCall | WNone, WNone => true
+  | _, _ => false
+  end.
+
+Definition disp_eqb (a b : list who * bool) : bool := list_eqb who_eqb (fst a) (fst b) && Bool.eqb (snd a) (snd b).
+
+(** id, facts, overridden methods, delegate, methods called, observed by the host (who ran each, did
+    the use fail), observed when the same calls are made inside the script *)
+Definition disp_case := (N * efacts * list str * bool * list str * (list who * bool) * (list who * bool))%type.
+
+Definition disp_mis_y (cs : list disp_case) : list N :=
+  flat_map (fun '(id, f, over, del, ms, impl, _) => if disp_eqb (y_dispatch f over del ms) impl then [] else [id]) cs.
+Definition disp_mis_g (cs : list disp_case) : list N :=
+  flat_map (fun '(id, _, over, del, ms, _, ref) => if disp_eqb (g_dispatch over del ms) ref then [] else [id]) cs.
+
+Definition outcome_eqb (a b : outcome) : bool :=
+  match a, b with OOk, OOk | OZero, OZero => true | _, _ => false end.
+
+(** id, history, outcome of each native call (impl), outcome of each in-script call of the history *)
+Definition sess_case := (N * list step * list outcome * list outcome)%type.
+
+Definition sess_mis_y (cs : list sess_case) : list N :=
+  flat_map (fun '(id, h, impl, _) => if list_eqb outcome_eqb (y_session true h) impl then [] else [id]) cs.
+(** inside the script every call gives the function's results *)
+Definition sess_mis_g (cs : list sess_case) : list N :=
+  flat_map (fun '(id, _, _, ref) => if forallb (outcome_eqb OOk) ref then [] else [id]) cs.
